@@ -106,7 +106,7 @@ def columns_collide(case):
 
 
 # --------------------------------------------------------------------------- feature-name stream (kind == "names")
-NAME_POOL = ["a", "b", "grp", "Sex", "a b", "sensitive_feature_0", "control_feature_0", "sensitive_feature_1", "y", ""]
+NAME_POOL = ["a", "A", "b", "grp", "Sex", "a b", "sensitive_feature_0", "control_feature_0", "sensitive_feature_1", "y", ""]
 
 
 def names_container(spec, n):
@@ -332,6 +332,18 @@ class CHECK(Check):
 
     def _names_case(self, rng):
         n = rng.choice([1, 2, 3, 4])
+        if rng.random() < 0.3:
+            # near-duplicates across / within the containers: the same name (must be rejected) or a name that differs only
+            # in case / by a trailing blank / from a default name by one character (must be accepted)
+            x = rng.choice(["a", "grp", "Sex", "sensitive_feature_0", "control_feature_0"])
+            y = rng.choice([x, x.swapcase(), x + " ", x[:-1], x + "0"])
+            if rng.random() < 0.5:
+                return {"kind": "names", "n": n, "sf": {"c": "series", "names": [x]},
+                        "cf": {"c": rng.choice(["series", "df", "dict"]), "names": [y]}}
+            other = {"c": rng.choice(["list", "ndarray"]), "names": [None]}
+            pair = {"c": rng.choice(["df", "dict"]) if x != y else "df", "names": [x, y]}
+            return {"kind": "names", "n": n, "sf": pair if rng.random() < 0.5 else other,
+                    "cf": other if rng.random() < 0.5 else pair}
         return {"kind": "names", "n": n, "sf": self._names_spec(rng, n),
                 "cf": self._names_spec(rng, n) if rng.random() < 0.6 else None}
 
